@@ -857,7 +857,7 @@ class Executor:
                     setv(ListV(o.arr, o.lo, o.hi - 1, o.wrap))
                 return [(v, st)]
             if name == "append":
-                x = args[0].code if isinstance(args[0], Char) else self.lift(args[0])
+                x = args[0].code if isinstance(args[0], Char) else (z3.IntVal(args[0].addr) if isinstance(args[0], Ref) else self.lift(args[0]))
                 setv(ListV(z3.Store(o.arr, o.hi, x), o.lo, o.hi + 1, o.wrap))
                 return [(NONE, st)]
             if name == "insert" and z3.is_int_value(self.lift(args[0])) and self.lift(args[0]).as_long() == 0:
@@ -1546,6 +1546,17 @@ class Executor:
             sx.pc.append(i >= hi)
             if self.feasible(sx):
                 sx.ghost["loop_exhausted"] = True
+                if isinstance(src, tuple) and src[0] == "range" and isinstance(s.target, ast.Name):
+                    # Python leaves the loop variable at its last value (or untouched when the range was empty)
+                    try:
+                        old = entry.loc.get(s.target.id)
+                    except Exception:
+                        old = None
+                    if old is not None and z3.is_expr(self.lift(old)):
+                        sx.loc[s.target.id] = z3.If(hi > lo, hi - 1, self.lift(old))
+                    else:
+                        sx.loc[s.target.id] = hi - 1
+                        sx.pc.append(hi > lo) if old is None else None
                 outs += self.run(s.orelse, sx) if s.orelse else [(sx, None)]
             sb = st.clone()
             sb.pc.append(i < hi)
